@@ -65,6 +65,38 @@ Proof.
   - destruct (f a); cbn [negb] in H; [auto|discriminate].
 Qed.
 
+Lemma offenders_nil {A} (f : A -> bool) l : filter (fun x => negb (f x)) l = [] -> forallb f l = true.
+Proof. intros H. apply forallb_forall. exact (filter_negb_nil f l H). Qed.
+
+Lemma flat_map_nil {A B} (f : A -> list B) l : flat_map f l = [] -> forall x, In x l -> f x = [].
+Proof.
+  induction l as [|a l IH]; cbn [flat_map]; intros H x []; subst; apply app_eq_nil in H; destruct H as [H1 H2]; auto.
+Qed.
+
+Lemma firstn3_nil {A} (l : list A) : firstn 3 l = [] -> l = [].
+Proof. destruct l; [reflexivity|discriminate]. Qed.
+
+Lemma nested_offenders_nil {A B C} (f : A -> B -> list C) la lb :
+  flat_map (fun a => flat_map (fun b => firstn 3 (f a b)) lb) la = [] ->
+  forall a b, In a la -> In b lb -> f a b = [].
+Proof.
+  intros H a b Ha Hb. apply firstn3_nil.
+  exact (flat_map_nil (fun b => firstn 3 (f a b)) lb
+           (flat_map_nil (fun a => flat_map (fun b => firstn 3 (f a b)) lb) la H a Ha) b Hb).
+Qed.
+
+(** offenders of a two-level sweep (rule set x element), tagged with the rule set *)
+Definition tagged_offenders {A} (ok : bool -> A -> bool) (l : list A) : list (bool * A) :=
+  flat_map (fun xml => map (pair xml) (filter (fun x => negb (ok xml x)) l)) [false; true].
+
+Lemma tagged_offenders_nil {A} (ok : bool -> A -> bool) l :
+  tagged_offenders ok l = [] -> forallb (fun xml => forallb (ok xml) l) [false; true] = true.
+Proof.
+  intros H. apply forallb_forall. intros xml Hx. apply offenders_nil.
+  pose proof (flat_map_nil _ _ H xml Hx) as H1. cbv beta in H1.
+  destruct (filter (fun x => negb (ok xml x)) l); [reflexivity|discriminate].
+Qed.
+
 (** * The alphabet is computed from the regenerated table *)
 Fixpoint mem_N (c : N) (l : list N) : bool :=
   match l with [] => false | x :: r => N.eqb x c || mem_N c r end.
